@@ -21,7 +21,7 @@ RULE = ("grid: curves 1..40 x rows {1,2,3} x wrap {F,T} x engine {numpy, normal}
         "non-trivial = (>= 2 curves or >= 2 rows) and >= 1 finite non-integer sample Added later: a second write after in-place edits, second-generation writes of the re-read object, digit-named curves, data_width equal to the widest field (+0..3) x every lhs_spacer, the object's own WRAP item in six spellings with wrap left to write().")
 ASSUMPTIONS = [
     "spacer contains at least one blank; data_width is at least the widest field in most cases (exactly widest field + 0..3 in the grid and a quarter of the random cases) and *below* it in the 'narrow' cases, where a field must stand alone on an over-long line",
-    "no finite non-index sample prints as a token numerically equal to NULL (it would legitimately come back as NaN)",
+    "no finite non-index sample is *equal* to NULL, except in the three witnesses of the known finding; samples that round onto NULL under the chosen format are generated",
     "tolerance = half a unit of the last printed digit of the token fmt % x, plus 4 ulp of slack",
 ]
 REQUIRED = ["write_read_pairs", "samples_compared", "wrapped_pairs_multi_line", "pairs_curve_count_multiple_of_capacity",
@@ -56,6 +56,9 @@ def grid(tier):
         for spell in ("Yes", "yes", "YES", "No", "NO", "Y"):
             k += 1
             yield {"n": n, "r": 3, "opts": {}, "engine": ["numpy", "normal"][k % 2], "values": "plain", "seed": 8 * k, "wrap_item": spell}
+    for nullv in (-999.25, -9999.25, 0):      # witness of the known finding: a reading equal to the NULL value
+        k += 1
+        yield {"n": 3, "r": 3, "opts": {}, "engine": ["numpy", "normal"][k % 2], "values": "plain", "seed": 8 * k, "null": nullv, "null_equal_sample": True}
     for form in ("numpy", "int"):
         for wrap in (True, False):
             for n in (3, 8, 14, 21):
@@ -172,11 +175,16 @@ def run_case(case, ctx):
             x = data[j][i]
             if not math.isnan(x):
                 try:
-                    if float(toks[j][i]) == float(null):
+                    if float(toks[j][i]) == float(null) and x == float(null) and not case.get("null_equal_sample"):
+                        # a sample *equal* to NULL is what NULL means (known finding; its witness keeps it); samples that merely
+                        # round onto NULL are kept: the writer must spell them out
                         data[j][i] = x = x + 1.0 if abs(x) < 1e15 else x * 2
                         toks[j][i] = fmt_for(opts, j) % x
                 except ValueError:
                     pass
+    if case.get("null_equal_sample") and n >= 2:
+        data[1][0] = float(null)
+        ctx.count("cases_with_a_sample_equal_to_null")
     width = max(len(t.strip()) if opts.get("len_numeric_field", None) == -1 else max(len(t), opts.get("len_numeric_field") or 0)
                 for col in toks for t in col)
     lnf = opts.get("len_numeric_field", None)
@@ -282,7 +290,7 @@ def run_case(case, ctx):
             if j == 0 and x == float(null):
                 ctx.count("index_null_equal_samples")
             if math.isnan(y):
-                ctx.violation("index-sample-nulled" if j == 0 else "finite-sample-became-nan:" + tag,
+                ctx.violation("index-sample-nulled" if j == 0 else "finite-sample-equal-to-null-became-nan" if x == float(null) else "finite-sample-became-nan:" + tag,
                               "curve #%d row %d was %r (token %r), read back NaN" % (j, i, x, toks[j][i]), detail)
                 continue
             tok = fmt_for(opts, j) % x
